@@ -19,7 +19,10 @@ R == INSTANCE Req
 
 Places == {"fn", "param", "modfn", "implfn", "traitmethod"}
 Kinds == {"doc", "lint", "cfgon", "cfgoff", "tool", "inert"}
-Inputs == { i \in [place : Places, kind : Kinds, async : BOOLEAN, nodeps : BOOLEAN] :
+\* pat: the pattern of the parameter that carries the attribute (place "param"): a plain identifier, `_`, or a destructuring pattern
+Pats == {"ident", "wild", "destr"}
+Inputs == { i \in [place : Places, kind : Kinds, async : BOOLEAN, nodeps : BOOLEAN, pat : Pats] :
+            /\ (i.place # "param" => i.pat = "ident")
             /\ (i.place = "param" => i.kind \in {"lint", "cfgon"})
             /\ (i.place = "traitmethod" => i.kind \in {"doc", "lint", "cfgon", "cfgoff", "inert"})
             /\ (i.place = "fn" => i.kind \notin {"cfgon", "cfgoff"})       \* rustc evaluates a cfg on the annotated item itself before the macro runs
